@@ -1,0 +1,9 @@
+//go:build !verif
+
+package client
+
+// verifPoint and verifGate are verification hooks; they do nothing unless the
+// package is built with the "verif" build tag (see verif_hooks.go).
+func verifPoint(string, int64, int64) {}
+
+func verifGate(string, int64) {}
